@@ -1,16 +1,30 @@
-(** C08 - inline lint filters change exactly the diagnostics they cover.  Statements only.
-    Proved here for every input: the machine leaves every diagnostic of a lint that no accepted
-    filter names exactly as it was, in place; with no accepted filter it is the identity.
-    NOT yet proved (full statement kept below as a definition, evaluated on every case by the
-    correspondence run and planned in DESIGN.md): machine = specification on well-formed filter
-    families, i.e. "the innermost covering filter for the lint decides". *)
-From Selene Require Import Filter.Machine Filter.Spec Filter.Facts.
+(** C08 - inline lint filters change exactly the diagnostics they cover.  Statements only. *)
+From Selene Require Import Filter.Machine Filter.Spec Filter.Facts Filter.Correct2 Filter.Correct4 Filter.Correct6 Filter.Correct7.
+
+(** The main theorem: on every well-formed filter family (wf_ok is evaluated on every dump of the
+    real traversal) the verbatim model of filter_diagnostics computes exactly the declarative
+    specification: the accepted inline filter for the lint with the smallest range containing the
+    diagnostic's start decides (first declared among equal ranges), else the accepted global one,
+    else the diagnostic is unchanged; allow removes, warn/deny set the severity; the failures are
+    exactly the unknown-lint, global-after-code and same-piece-same-lint ones, in order. *)
+Theorem C08_filter_correct : forall es fc ds,
+  wf_ok fc (oks es) = true ->
+  filter_diagnostics es fc ds =
+    Some (map ODiag (spec_diags (oks es) fc ds) ++ map OFail (spec_failures es fc)).
+Proof. exact filter_correct. Qed.
+Print Assumptions C08_filter_correct.
+
+(** ... in particular the `expect("... stack is empty")` of the replay loop cannot fire *)
+Theorem C08_no_underflow : forall es fc ds, wf_ok fc (oks es) = true -> filter_diagnostics es fc ds <> None.
+Proof. intros es fc ds H. rewrite (filter_correct es fc ds H). discriminate. Qed.
+Print Assumptions C08_no_underflow.
 
 Theorem C08_no_filters_identity : forall es fc ds,
   oks es = [] -> filter_diagnostics es fc ds = Some (map ODiag ds ++ map OFail (errs es)).
 Proof. exact no_filters_identity. Qed.
 Print Assumptions C08_no_filters_identity.
 
+(** frame for other lints, without any well-formedness assumption *)
 Theorem C08_frame_other_lints : forall es fc ds outs code,
   filter_diagnostics es fc ds = Some outs ->
   (forall f, In f (oks es) -> fc_lint (fl_conf f) <> code) ->
@@ -20,8 +34,37 @@ Theorem C08_frame_other_lints : forall es fc ds outs code,
 Proof. exact frame_other_lints. Qed.
 Print Assumptions C08_frame_other_lints.
 
-(** The full statement (pending proof; evaluated as a boolean on every correspondence case). *)
-Definition C08_filter_correct_statement : Prop :=
-  forall es fc ds, wf_filters (oks es) = true ->
-    filter_diagnostics es fc ds =
-      Some (map ODiag (spec_diags (oks es) fc ds) ++ map OFail (spec_failures es fc)).
+(** what the specification says, spelled out on the two-filter situations the property names *)
+Definition mk (g : bool) (lint : string) (v : variation) (lo hi : N) : lfilter :=
+  {| fl_conf := {| fc_global := g; fc_lint := lint; fc_var := v |}; fl_comment := (0, 0)%N; fl_range := (lo, hi) |}.
+
+(** the specification on the situations the property names (concrete instances, by computation) *)
+Theorem C08_spec_examples :
+  (* innermost wins *)
+  governing [mk false "a" VAllow 0 100; mk false "a" VDeny 10 20] "a" 15 = Some (mk false "a" VDeny 10 20) /\
+  governing [mk false "a" VAllow 0 100; mk false "a" VDeny 10 20] "a" 20 = Some (mk false "a" VAllow 0 100) /\
+  (* a global filter is overridden by any inline filter, and only inside its range *)
+  governing [mk true "a" VAllow 0 0; mk false "a" VDeny 10 20] "a" 10 = Some (mk false "a" VDeny 10 20) /\
+  governing [mk true "a" VAllow 0 0; mk false "a" VDeny 10 20] "a" 9 = Some (mk true "a" VAllow 0 0) /\
+  (* other lints are not governed at all *)
+  governing [mk true "a" VAllow 0 0; mk false "a" VDeny 10 20] "b" 15 = None.
+Proof. vm_compute. repeat split. Qed.
+Print Assumptions C08_spec_examples.
+
+(** non-vacuity: a nested family with a same-range pair, a zero-width filter, a global and a
+    rejected global satisfies the hypothesis *)
+Definition ex_filters : list fentry :=
+  [FOk (mk true "a" VAllow 10 40); FOk (mk false "a" VDeny 10 40); FOk (mk false "b" VWarn 10 40);
+   FOk (mk false "a" VAllow 20 30); FErr "nope" (3, 9)%N; FOk (mk false "b" VAllow 50 50)].
+Theorem C08_nonvacuous :
+  wf_ok (Some (10, 40)%N) (oks ex_filters) = true /\
+  filter_diagnostics ex_filters (Some (10, 40)%N)
+    [{| d_code := "a"; d_start := 25; d_payload := 0; d_sev := SWarning |};
+     {| d_code := "a"; d_start := 12; d_payload := 1; d_sev := SWarning |};
+     {| d_code := "a"; d_start := 45; d_payload := 2; d_sev := SWarning |};
+     {| d_code := "c"; d_start := 25; d_payload := 3; d_sev := SWarning |}] =
+  Some [ODiag {| d_code := "a"; d_start := 12; d_payload := 1; d_sev := SError |};
+        ODiag {| d_code := "c"; d_start := 25; d_payload := 3; d_sev := SWarning |};
+        OFail (NoSuchLint "nope" (3, 9)%N)].
+Proof. vm_compute. split; reflexivity. Qed.
+Print Assumptions C08_nonvacuous.
